@@ -12,6 +12,7 @@ import (
 	"strings"
 	"testing"
 
+	"github.com/openbao/openbao/sdk/v2/helper/keysutil"
 	kit "github.com/openbao/openbao/sdk/v2/helper/verifkit"
 	"github.com/openbao/openbao/sdk/v2/logical"
 )
@@ -76,6 +77,8 @@ type c17Hist struct {
 
 	onFaultFail  func(what string) // hooks for the next faulted() call
 	onFaultRetry func()
+	trimRing     *c17Ring
+	retryClass   string
 }
 
 // trimHooks: between a fault-failed trim and its retry the versions being
@@ -83,6 +86,7 @@ type c17Hist struct {
 func (h *c17Hist) trimHooks(g *c17Ring, v int) {
 	h.onFaultFail = func(what string) { g.limbo, g.trimFault = v, what }
 	h.onFaultRetry = func() { g.limbo = 0 }
+	h.trimRing = g
 }
 
 func (h *c17Hist) log(format string, a ...any) {
@@ -318,21 +322,13 @@ func (h *c17Hist) checkStorage(g *c17Ring) {
 		case v >= lo && v < g.limbo:
 			h.r.Count("storage_limbo_after_failed_trim", 1)
 		case v >= lo && v <= g.m.Latest:
-			if !in && g.trimFault == "put_policy" && h.a.noCache {
-				// precise signature: cache-less, an earlier trim failed on the policy write after its archive write and was retried
-				h.violate(g, "C17-trim-retry-after-policy-write-fault", fmt.Sprintf("a trim failed on the policy write after the trimmed archive had been written; the retried trim (policy reloaded from storage) trimmed the archive a second time: key material of version %d, between the minimum available version and the latest, is gone from storage", v))
-			} else if !in && g.trimFault == "put_archive" && !h.a.noCache {
-				h.violate(g, "C17-trim-retry-after-archive-write-fault", fmt.Sprintf("a trim failed because the archive write failed, the retried trim succeeded without re-basing the archive (in-memory ArchiveMinVersion is not rolled back when Persist fails), so later archive writes land on the wrong index: key material of version %d, between the minimum available version and the latest, is not in storage", v))
-			} else if !in {
+			if !in {
 				h.violate(g, "C17-archive-missing-version", fmt.Sprintf("storage does not contain the key material of version %d, which lies between the minimum available version and the latest", v))
 			} else {
 				h.r.Count("archive_has_version", 1)
 			}
 		case v < lo:
-			if in && g.trimFault == "put_archive" && !h.a.noCache {
-				// precise signature: cached policy, an earlier trim failed on the write of the archive entry and was retried
-				h.violate(g, "C17-trim-retry-after-archive-write-fault", fmt.Sprintf("a trim failed because the archive write failed, the retried trim succeeded, but the archive was never trimmed: key material of trimmed version %d is still in storage and the archive is indexed from the wrong base (in-memory ArchiveMinVersion is not rolled back when Persist fails)", v))
-			} else if in {
+			if in {
 				h.violate(g, "C17-trim-residue", fmt.Sprintf("key material of trimmed version %d is still in storage", v))
 			} else {
 				h.r.Count("trimmed_version_gone", 1)
@@ -798,7 +794,7 @@ func (h *c17Hist) checkAll(skip *c17Ring) {
 // storage replay verifies (except for skip, a ring whose state cannot be
 // known after a half-done restore), and the client retries the request.
 func (h *c17Hist) faulted(kind string, k int, skip *c17Ring, do func() bool) (fired bool) {
-	defer func() { h.onFaultFail, h.onFaultRetry = nil, nil }()
+	defer func() { h.onFaultFail, h.onFaultRetry, h.trimRing = nil, nil, nil }()
 	if h.a.fs == nil || k < 0 {
 		do()
 		return false
@@ -830,9 +826,60 @@ func (h *c17Hist) faulted(kind string, k int, skip *c17Ring, do func() bool) (fi
 		return true
 	}
 	h.a.fs.arm(-1)
+	if kind == "trim" && what == "put_policy" && h.a.noCache {
+		// known signature (see afterRetriedTrim): the second trim slices the
+		// already trimmed archive again, which can also panic or fail outright
+		h.retryClass, h.a.panicClass = "C17-trim-retry-after-policy-write-fault", "C17-trim-retry-after-policy-write-fault"
+	}
 	do()
+	h.retryClass, h.a.panicClass = "", ""
 	h.r.Count("fault_retried:"+kind, 1)
+	if kind == "trim" && !h.bad && h.trimRing != nil {
+		h.afterRetriedTrim(h.trimRing, what)
+	}
 	return true
+}
+
+// afterRetriedTrim: see the policy-level harness. Entry [v - min_available]
+// of the stored archive must be version v's key right after a trim that was
+// retried following an injected fault.
+func (h *c17Hist) afterRetriedTrim(g *c17Ring, what string) {
+	if !g.exists {
+		return
+	}
+	why := ""
+	p, err := keysutil.LoadPolicy(h.a.ctx, h.a.st, "policy/"+g.name)
+	if err != nil || p == nil {
+		why = fmt.Sprintf("stored policy cannot be loaded: %v", err)
+	} else if arch, err := p.LoadArchive(h.a.ctx, h.a.st); err != nil {
+		why = err.Error()
+	} else {
+		lo := g.m.MinAvail
+		if lo < 1 {
+			lo = 1
+		}
+		for v := lo; v <= g.m.Latest && why == ""; v++ {
+			i := v - p.MinAvailableVersion
+			switch {
+			case i < 0 || i >= len(arch.Keys):
+				why = fmt.Sprintf("the archive has %d entries, version %d (index %d with min_available_version %d) is outside it", len(arch.Keys), v, i, p.MinAvailableVersion)
+			case c17NeedleOf(arch.Keys[i], h.spec) != g.m.Keys[v].Needle:
+				why = fmt.Sprintf("archive entry %d (= version %d with min_available_version %d) does not hold version %d's key", i, v, p.MinAvailableVersion, v)
+			}
+		}
+	}
+	if why == "" {
+		h.r.Count("archive_index_ok_after_retried_trim", 1)
+		return
+	}
+	switch {
+	case what == "put_archive" && !h.a.noCache:
+		h.violate(g, "C17-trim-retry-after-archive-write-fault", "cached policy: a trim failed because the archive write failed; Persist does not roll the in-memory ArchiveMinVersion back, so the retried trim succeeded without trimming/re-basing the stored archive: "+why)
+	case what == "put_policy" && h.a.noCache:
+		h.violate(g, "C17-trim-retry-after-policy-write-fault", "cache-less: a trim failed on the policy write after the trimmed archive had been written; the retried trim (policy reloaded from storage) trimmed the archive a second time: "+why)
+	default:
+		h.violate(g, "C17-archive-index", fmt.Sprintf("after a trim that failed on %s and was retried: %s", what, why))
+	}
 }
 
 func (h *c17Hist) pickFault() int {
@@ -1000,6 +1047,8 @@ func (h *c17Hist) doTrim(g *c17Ring, v int) bool {
 	case resp.Refused && must:
 		h.r.Count("trim_invalid_refused", 1)
 	case resp.Refused && m.SoftDeleted:
+	case resp.Refused && h.retryClass != "":
+		h.violate(g, h.retryClass, fmt.Sprintf("cache-less: a trim failed on the policy write after the trimmed archive had been written; the retried trim to %d slices the already trimmed archive again and fails: %s", v, resp.Err))
 	case resp.Refused:
 		h.violate(g, "C17-config-refused", fmt.Sprintf("valid trim to %d was refused: %s", v, resp.Err))
 	case must:
